@@ -134,6 +134,10 @@ def isF07 (tc : TC) : Bool :=
   tc.st == .fullDuplex && tc.reqs.length ≥ 2 &&
   (match tc.sdef with | some d => d.data.isEmpty && d.err.isSome | none => false)
 
+/-- the F27 shape: a client-streaming stream type with an empty request stream -/
+def isF27 (tc : TC) : Bool :=
+  (tc.st == .clientStream || tc.st == .halfDuplex || tc.st == .fullDuplex) && tc.reqs.isEmpty
+
 def expected (tc : TC) : Result :=
   match tc.st with
   | .unary | .clientStream => expectedUnary tc
